@@ -177,7 +177,7 @@ class World:
                     # the injected driver fault surfaced as an error of this operation
                     r.count('struct_driver_faults_surfaced')
                     suspended = True
-                    if not self.readback_failed_consistently(m, members, op, combined, fail, layout, ops, inherited, readonly):
+                    if not self.readback_failed_consistently(m, [k], op, combined, fail, layout, ops, inherited, readonly):
                         break
                     continue
                 r.violation(f'C18/struct/{layout}/raises/{op}', f'{op} raised {type(e).__name__}: {e}'[:200],
@@ -186,7 +186,7 @@ class World:
             if fail['fired'] > fired0:
                 r.count('struct_driver_faults_swallowed')    # the operation caught the fault itself (error stored as read error)
                 suspended = True
-                if not self.readback_failed_consistently(m, members, op, combined, fail, layout, ops, inherited, readonly):
+                if not self.readback_failed_consistently(m, [k], op, combined, fail, layout, ops, inherited, readonly):
                     break
                 continue
             if suspended:
@@ -222,7 +222,8 @@ class World:
 
     def readback_failed_consistently(self, m, members, op, combined, fail, layout, ops, inherited, readonly):
         """a member write whose struct write went through but whose read-back failed: the device has taken the value, struct and
-        members both show what the device returned with the write (the error concerns the read-back only)"""
+        the written member both show what the device returned with the write (the error concerns the read-back only; other
+        members may have been set apart earlier by the driver-side assignments of the listed findings)"""
         if not (combined and op in ('write_member', 'change_member_wire') and fail.get('last_kind') == 'read'):
             return True
         r = self.r
